@@ -41,6 +41,7 @@ func c11d(c *Ctx) {
 			c.Unk("config/"+tg.file+"/type", "-", "type "+tg.pkg+"."+tg.typ+" not found")
 			continue
 		}
+		var shape []string
 		usedTags := map[string]bool{}
 		allTags := map[string]bool{}
 		unbound := map[string]bool{}
@@ -66,6 +67,14 @@ func c11d(c *Ctx) {
 						if nm := strings.Split(tag, ",")[0]; nm != "" && nm != "-" {
 							name = nm
 						}
+					}
+					// two fields under one JSON name: encoding/json binds neither; an unexported
+					// or embedded field is not bound the way this walk assumes
+					if _, dup := tags[name]; dup {
+						shape = append(shape, path+"."+name+" (two fields share this JSON name: neither is bound)")
+					}
+					if !u.Field(i).Exported() || u.Field(i).Embedded() {
+						shape = append(shape, path+"."+u.Field(i).Name()+" (unexported or embedded field)")
 					}
 					tags[name] = i
 					allTags[path+"."+name] = true
@@ -94,6 +103,8 @@ func c11d(c *Ctx) {
 			}
 		}
 		walk(doc, named, tg.typ)
+		sort.Strings(shape)
+		c.Check(len(shape) == 0, "config/"+tg.file+"/fields-bindable", tg.file, "every field on the way is exported, not embedded, and alone under its JSON name", fmt.Sprintf("fields of the structs %s is decoded into that encoding/json does not bind as written: %v", tg.file, shape))
 		// the binding above is the DEFAULT binding of encoding/json: it is what runs only if no
 		// type on the way decodes itself
 		var custom []string
